@@ -162,6 +162,17 @@ class Built:
         self.kids = []       # placed: (start, stop, sub_aw, Built | leaf dict, signals-bearing interface, map)
 
 
+def _MockReg(width, access):
+    from amaranth.lib import wiring
+    from amaranth.lib.wiring import Out
+    from amaranth_soc import csr
+
+    class MockReg(wiring.Component):
+        def __init__(self):
+            super().__init__({"element": Out(csr.Element.Signature(width, access))})
+    return MockReg()
+
+
 def build(cfg):
     from amaranth_soc import csr, wishbone
     from amaranth_soc.memory import MemoryMap
@@ -185,7 +196,13 @@ def build(cfg):
                 saw = s["aw"]
                 if s["kind"] in ("iface", "flipped"):
                     port = csr.Interface(addr_width=saw, data_width=sdw, path=(f"s{s['uid']}",))
-                    port.memory_map = mmap = MemoryMap(addr_width=saw, data_width=sdw)
+                    mmap = MemoryMap(addr_width=saw, data_width=sdw)
+                    # what lies behind a subordinate must not matter to the decoder: give the leaf maps
+                    # registers of every access mix (none / rw / r+w / w+rw / w only), by leaf number
+                    for k, acc in enumerate([(), ("rw",), ("r", "w"), ("w", "rw"), ("w",)][s["uid"] % 5]):
+                        if k < (1 << saw):
+                            mmap.add_resource(_MockReg(sdw, acc), name=(f"r{k}",), size=1)
+                    port.memory_map = mmap
                     obj = flipped(port) if s["kind"] == "flipped" else port
                     isif = 1
                 else:
